@@ -125,6 +125,86 @@ def o2(h, st):
     h.done()
 
 
+# ---------------------------------------------------------------------------------------------------------------------
+# P1  the deflation loop of energy_estimation for ANY number of deflation circuits (loop cut, backend opaque)
+
+from tverif.interp import GhostIterable, GSeq
+
+
+class _DeflationLoop(GhostIterable):
+    managed = ("energy", "self")       # "self" is the solver holding the opaque backend (its call log grows)
+
+    def __init__(self, h, elem, coeff, f, E):
+        self.h, self.elem, self.coeff, self.f, self.E = h, elem, coeff, f, E
+        self.iterations = 0
+
+    def element(self):
+        self.iterations += 1
+        return self.elem
+
+    def init(self, interp, env):
+        s = env.lookup("self")
+        self.h.check_close("on loop entry: energy is the expectation value returned by the backend", env.lookup("energy"), self.E)
+        self.n_calls = len(s.backend.calls)
+        self.state_circuit = env.lookup("circuit")
+        self.state_sig = [(g.name, tuple(g.target), g.parameter) for g in self.state_circuit._gates]
+
+    def havoc(self, interp, env):
+        env.assign("energy", self.e0)
+
+    def step(self, interp, env, broke):
+        h = self.h
+        s = env.lookup("self")
+        new = s.backend.calls[self.n_calls:]
+        h.check("one simulation per deflation circuit, nothing else asked of the backend", len(new) == 1 and new[0][0] == "simulate")
+        if len(new) == 1:
+            from tangelo.linq import Circuit
+            inv = Circuit(self.state_circuit._gates, n_qubits=None).inverse()
+            want = [(g.name, tuple(g.target), g.parameter) for g in list(self.elem._gates) + list(inv._gates)]
+            got = [(g.name, tuple(g.target), g.parameter) for g in new[0][1]._gates]
+            h.check("overlap circuit == deflation circuit ++ inverse(state circuit)", got == want)
+        h.check_close("energy += deflation_coeff * f('0...0' on the ansatz register)", env.lookup("energy"), self.e0 + self.coeff * self.f)
+        h.check("state circuit not modified", [(g.name, tuple(g.target), g.parameter) for g in self.state_circuit._gates] == self.state_sig)
+
+
+@contract("C08", "P1.energy_estimation.deflation_loop.any_number", level="P", targets=[(VQ, "VQESolver.energy_estimation")],
+          structures=lambda tier: [{"ref": r, "proj": p, "narrow": nw} for r in (False, True) for p in (False, True) for nw in (False, True)])
+def p1(h, st):
+    """with the compute backend opaque and ANY number of deflation circuits: the loop starts from the expectation value E of the solver's Hamiltonian on the state circuit, and one
+    generic iteration on a generic deflation circuit (narrower than the ansatz or not), from an arbitrary accumulated energy, simulates exactly deflation circuit ++ inverse(state
+    circuit), reads the frequency of the all-zero outcome OF THE ANSATZ REGISTER and adds deflation_coeff times it - for every value of E, f, the coefficient and the accumulated
+    energy; the state circuit is not modified. By induction energy == E + coeff * sum_k f_k for any number of deflation circuits"""
+    if not h.symbolic:
+        h.check("native: covered by O3 / O1b", True)
+        h.done()
+        return
+    import numpy as np
+    from tangelo.linq import Circuit, Gate
+    from tangelo.algorithms.variational import VQESolver, BuiltInAnsatze
+    from contracts.C07 import molecule
+    E, coeff, f, e0 = h.real("E"), h.real("coeff"), h.real("f0"), h.real("energy_so_far")
+    s = VQESolver({"molecule": molecule("H2"), "ansatz": BuiltInAnsatze.UCCSD, "qubit_mapping": "jw"})
+    s.build()
+    w = s.ansatz.circuit.width
+    s.backend = _OpaqueBackend(E, [f] * 4)
+    elem = Circuit([Gate("X", 1)], n_qubits=None if st["narrow"] else w)
+    proto = _DeflationLoop(h, elem, coeff, f, E)
+    proto.e0 = e0
+    s.deflation_circuits = GSeq.atom("deflation_circuits", elem, proto=proto)
+    s.deflation_coeff = coeff
+    s.ref_state = [1, 0, 0, 0] if st["ref"] else None
+    s.reference_circuit = Circuit([Gate("X", 0)], n_qubits=w) if st["ref"] else Circuit()
+    s.projective_circuit = Circuit([Gate("H", 1)], n_qubits=w) if st["proj"] else None
+    h.numeric_pi()
+    e = h.call(VQ, "VQESolver.energy_estimation", s, np.array([0.11, -0.23]))
+    if s.deflation_circuits.iterations == 0:
+        h.check_close("no deflation circuit: the energy is E", e, E)
+    else:
+        h.check("the loop body was entered once for the generic deflation circuit", s.deflation_circuits.iterations == 1)
+        h.check_close("the accumulated energy is returned", e, e0 + coeff * f)
+    h.done()
+
+
 PROPERTY = {
     "level": "other",
     "explanation": "Deductive part: energy_estimation's assembly (which circuit and Hamiltonian reach the backend, reference / projective placement, deflation sum E + coeff * sum f_k) is proved "
